@@ -16,7 +16,6 @@ from __future__ import annotations
 
 """CMA-ES designer."""
 import json
-import queue
 from typing import Optional, Sequence
 
 from evojax.algo import cma_jax
@@ -80,8 +79,11 @@ class CMAESDesigner(vza.PartiallySerializableDesigner):
     )
     self._cma_es_jax = cma_jax.CMA_ES_JAX(
         param_size=self._num_params, **cma_kwargs)
-    self._trial_population = queue.Queue(
-        maxsize=self._cma_es_jax.hyper_parameters.pop_size)
+    self._pop_size = self._cma_es_jax.hyper_parameters.pop_size
+    # Features and labels of the completed trials of the current, partially
+    # evaluated population. They are part of the designer's (dumped) state.
+    self._pending_features: list[np.ndarray] = []
+    self._pending_labels: list[float] = []
 
   def update(
       self, completed: vza.CompletedTrials, all_active: vza.ActiveTrials
@@ -89,19 +91,22 @@ class CMAESDesigner(vza.PartiallySerializableDesigner):
     completed_trials = list(completed.trials)
 
     # Keep inserting completed trials into population. If population is full,
-    # a CMA-ES update and queue clear are triggered.
+    # a CMA-ES update and a clear are triggered.
     while completed_trials:
-      self._trial_population.put(completed_trials.pop())
+      features, labels = self._converter.to_xy([completed_trials.pop()])
+      self._pending_features.append(np.asarray(features[0]))
+      self._pending_labels.append(float(labels[0, 0]))
 
-      if self._trial_population.full():
+      if len(self._pending_labels) == self._pop_size:
         # Once full, make a full CMA-ES update.
-        features, labels = self._converter.to_xy(
-            list(self._trial_population.queue))
         # CMA-ES expects fitness to be shape (pop_size,) and solutions of shape
         # (pop_size, num_params).
         self._cma_es_jax.tell(
-            fitness=jnp.array(labels[:, 0]), solutions=jnp.array(features))
-        self._trial_population.queue.clear()
+            fitness=jnp.array(self._pending_labels),
+            solutions=jnp.array(np.stack(self._pending_features)),
+        )
+        self._pending_features.clear()
+        self._pending_labels.clear()
 
   def suggest(self,
               count: Optional[int] = None) -> Sequence[vz.TrialSuggestion]:
@@ -127,10 +132,25 @@ class CMAESDesigner(vza.PartiallySerializableDesigner):
     cma_state = json.loads(
         metadata.ns('cma')['state'], object_hook=json_utils.numpy_hook)
     self._cma_es_jax.load_state(cma_state)
+    pending = json.loads(
+        metadata.ns('cma').get('pending_population', default='{}'),
+        object_hook=json_utils.numpy_hook,
+    )
+    self._pending_features = [
+        np.asarray(f) for f in pending.get('features', [])
+    ]
+    self._pending_labels = [float(l) for l in pending.get('labels', [])]
 
   def dump(self) -> vz.Metadata:
     cma_state = self._cma_es_jax.save_state()
     metadata = vz.Metadata()
     metadata.ns('cma')['state'] = json.dumps(
         cma_state, cls=json_utils.NumpyEncoder)
+    metadata.ns('cma')['pending_population'] = json.dumps(
+        {
+            'features': self._pending_features,
+            'labels': self._pending_labels,
+        },
+        cls=json_utils.NumpyEncoder,
+    )
     return metadata
